@@ -126,6 +126,8 @@ def _split_index_safe(sub, guards):
     if v.func.attr in ("split", "rsplit"):
         if sub.slice.value == 0:
             return True   # split always yields at least one part
+        if sub.slice.value != 1:
+            return False  # one proven occurrence gives two parts, not three
         return _occurs(v.args[0].value, v.func.value, guards)
     return False
 
@@ -171,7 +173,24 @@ def r10a(repo, chk):
                     g, ok = [], True
                     for at, site in places:
                         g += [(norm(t), p) for t, p in cfg.guards(at) if isinstance(t, ast.expr)]
-                        ok = ok and any(p and isinstance(t, ast.Compare) and len(t.ops) == 1 and isinstance(t.ops[0], ast.In) and norm(t.left) == norm(site.args[1])
+                        def same_value(tested, used, used_at):
+                            """the name that was tested and the name that is used hold the same value: same name, or the used one is a copy
+                            of the tested one taken while the tested definitions were still in force"""
+                            if norm(tested) == norm(used):
+                                return True
+                            if isinstance(tested, ast.Name) and isinstance(used, ast.Name):
+                                ds_u = sc_.rd.at(used_at, used.id)
+                                tids = [x.id for x in sc_.cfg.nodes_of(tested)]
+                                if len(ds_u) == 1 and ds_u[0].kind == "assign" and isinstance(ds_u[0].value, (ast.Name, ast.Tuple)) and tids:
+                                    src = ds_u[0].value
+                                    if isinstance(src, ast.Tuple) and ds_u[0].index and len(ds_u[0].index) == 1 and ds_u[0].index[0] < len(src.elts):
+                                        src = src.elts[ds_u[0].index[0]]
+                                    if isinstance(src, ast.Name) and src.id == tested.id:
+                                        a_ = {id(d) for d in sc_.rd.at(ds_u[0].node, tested.id)}
+                                        b_ = {id(d) for d in sc_.rd.at(tids[0], tested.id)}
+                                        return bool(a_) and a_ == b_
+                            return False
+                        ok = ok and any(p and isinstance(t, ast.Compare) and len(t.ops) == 1 and isinstance(t.ops[0], ast.In) and same_value(t.left, site.args[1], at)
                                         and _is_field_set(repo, sc_, t.comparators[0], set(fields)) for t, p in cfg.guards(at))
                     hasattr_guard = any(p and t.startswith("hasattr(") for t, p in g)
                     if not ok and not hasattr_guard and not any(" in " in t for t, p in g):
@@ -206,7 +225,7 @@ def r10a(repo, chk):
                                 ok = True
                             if isinstance(t.ops[0], ast.GtE) and p and c.slice.value < k:
                                 ok = True
-                if not ok and isinstance(c.slice, ast.Constant) and c.slice.value in (0, 1):
+                if not ok and isinstance(c.slice, ast.Constant) and c.slice.value in (0, 1, 2):
                     # <X>.split(sep, 1)[1] / .partition(sep)[..]: fine when the tests on the path show that sep occurs in X
                     ok = _split_index_safe(c, [(t, p) for t, p in cfg.guards(n.id) if isinstance(t, ast.expr)])
                 elif isinstance(c.slice, ast.Constant) and c.slice.value == "":
@@ -283,6 +302,8 @@ def r10a(repo, chk):
                             g = []
                             for i in ids:
                                 g += [(norm(t), p) for t, p in ccfg.guards(i) if isinstance(t, ast.expr)]
+                            from .shared import expr_guards
+                            g += [(norm(t), p) for t, p in expr_guards(x, h)]
                             tx = norm(x)
                             okn = any((p and t in (f"{tx} is not None", f"isinstance({tx}, int)", tx)) or ((not p) and t == f"{tx} is None") for t, p in g)
                             chk.judge("R10.a", f"compiler:Compiler.compile:handler {hname} computes with {tx} under a None test", okn,
@@ -298,6 +319,8 @@ def r10a(repo, chk):
                         g = []
                         for i in ids:
                             g += [(norm(t), p) for t, p in ccfg.guards(i) if isinstance(t, ast.expr)]
+                        from .shared import expr_guards
+                        g += [(norm(t), p) for t, p in expr_guards(a, h)]
                         okg = any(p and (t == base or t.startswith(f"isinstance({base},")) for t, p in g) or any((not p) and t == f"{base} is None" for t, p in g)
                         chk.judge("R10.a", f"compiler:Compiler.compile:handler {hname} reads {norm(a)} under a guard on {base}", okg,
                                   f"{norm(a)} is read without testing {base}: for exceptions without that part the handler itself raises and "
@@ -510,6 +533,47 @@ def _is_parent_walk(loop):
     return False
 
 
+def _is_link_walk(loop, repo):
+    """while v.L is not None: v = v.L  — a walk along a link L that cannot be cyclic: every store  x.L = o  in the package happens
+    right after such a walk on o (so o.L is None: o is the end of its chain) and under  o is not x.  By induction every chain ends:
+    a new edge x -> o starts at a node that is not o and ends at a chain end, so it closes no cycle."""
+    t = loop.test
+    if not (isinstance(t, ast.Compare) and len(t.ops) == 1 and isinstance(t.ops[0], ast.IsNot) and isinstance(t.comparators[0], ast.Constant)
+            and t.comparators[0].value is None and isinstance(t.left, ast.Attribute) and isinstance(t.left.value, ast.Name)):
+        return False
+    v, link = t.left.value.id, t.left.attr
+    if len(loop.body) != 1 or norm(loop.body[0]) != f"{v} = {v}.{link}" or loop.orelse:
+        return False
+    from .shared import fn_ctx, live_ids, guard_atoms
+    n_stores = 0
+    for mn in repo.module_names():
+        if mn in ("structures_generated", "types_generated"):
+            continue
+        m = repo.mod(mn)
+        for fn in m.funcs.values():
+            if not isinstance(fn, (ast.FunctionDef, ast.AsyncFunctionDef)):
+                continue
+            stores = [st for st in ast.walk(fn) if isinstance(st, ast.Assign) and len(st.targets) == 1 and isinstance(st.targets[0], ast.Attribute)
+                      and st.targets[0].attr == link and enclosing_def(st) is fn]
+            if not stores:
+                continue
+            cfg, rd = fn_ctx(fn)
+            for st in stores:
+                n_stores += 1
+                if isinstance(st.value, ast.Constant) and st.value.value is None:
+                    continue
+                if not isinstance(st.value, ast.Name):
+                    return False
+                o, x = st.value.id, norm(st.targets[0].value)
+                ids = live_ids(cfg, st)
+                if not ids:
+                    continue
+                atoms = {(norm(a), p) for a, p in guard_atoms(cfg, ids[0])}
+                if (f"{o}.{link} is not None", False) not in atoms or (f"{o} is not {x}", True) not in atoms:
+                    return False
+    return n_stores > 0
+
+
 def _is_progress_loop(loop):
     """while len(A) < len(B):  every pass through the body either leaves (raise / return / break) or appends to A at least once,
     and B is not changed: A grows by one or more per iteration, so the loop ends after at most len(B) iterations."""
@@ -570,6 +634,9 @@ def r10e(repo, chk):
             kind = AUDITED_LOOPS.get((mn, q))
             if kind is None and _is_parent_walk(loop):
                 chk.ok("R10.e", key + " [recognised: walk up the parent chain]", {"kind": "parent (auto)"})
+                continue
+            if kind is None and _is_link_walk(loop, repo):
+                chk.ok("R10.e", key + " [recognised: walk along a link that every store keeps acyclic]", {"kind": "link (auto)"})
                 continue
             if kind is None and _is_progress_loop(loop):
                 chk.ok("R10.e", key + " [recognised: grows a list towards a fixed length or leaves]", {"kind": "progress (auto)"})
